@@ -18,7 +18,7 @@ ASSUMPTIONS = [LEVEL_NOTE, "comparison is up to C type identity: a cv-qualified 
 
 
 def plan(tier):
-    return {"n": 250 if tier == "quick" else 3000, "floor": 50 if tier == "quick" else 600}
+    return {"n": 250 if tier == "quick" else 1000, "floor": 50 if tier == "quick" else 200}
 
 
 def rule(tier):
